@@ -45,6 +45,11 @@ func (s *ImmuServer) NewTx(ctx context.Context, request *schema.NewTxRequest) (*
 		return nil, err
 	}
 
+	// systemdb is always read-only from external access
+	if request.Mode != schema.TxMode_ReadOnly && sess.GetDatabase().GetName() == SystemDBName {
+		return nil, ErrPermissionDenied
+	}
+
 	opts := sql.DefaultTxOptions().
 		WithReadOnly(request.Mode == schema.TxMode_ReadOnly)
 
